@@ -57,7 +57,7 @@ type damage struct {
 }
 
 type outcome struct {
-	Res    string  `json:"res"`   // ok | error | panic | hang | inconsistent | na
+	Res    string  `json:"res"`   // ok | error | hole (an offset inside [first, last] is answered with "no such offset") | panic | hang | inconsistent | na
 	Where  string  `json:"where"` // free text, for humans
 	First  int64   `json:"first"`
 	Last   int64   `json:"last"`
@@ -704,6 +704,13 @@ func (x *runner) openAndRead(root string, shard, seg, commit int64) *phase {
 		for r.HasNext() {
 			e, err := r.ReadNext()
 			if err != nil {
+				if noSuchOffset(err) {
+					// the WAL claims [first, last] and denies holding an offset inside: a gap, nothing is reported
+					// as damaged (WalRecovery.tla: outcome "hole"); which of the later offsets it still serves is
+					// recorded for the reader of the report
+					return "hole", fmt.Sprintf("read@%d: %v, although FirstOffset=%d LastOffset=%d; later offsets served: %v",
+						next, err, ph.first, ph.last, servedAfter(w, next, ph.last))
+				}
 				return "error", fmt.Sprintf("read@%d: %v", next, err)
 			}
 			got = append(got, e)
@@ -735,6 +742,31 @@ func (x *runner) openAndRead(root string, shard, seg, commit int64) *phase {
 		return "ok", ""
 	})
 	return ph
+}
+
+// noSuchOffset tells the two kinds of failed reads apart (WalRecovery.tla, "Answers of the reopened WAL"): the bare
+// sentinels are the answers of the range checks (readOnlySegment.Read / readWriteSegment.Read: offset outside
+// [base, last]; readOnlySegmentsGroup.Get: no segment file; NewReader: entry not found) = "there is no such offset",
+// whereas damage met while opening a segment or validating a record is reported through a wrapped error
+// (ErrDataCorrupted, or ErrOffsetOutOfBounds wrapped with the sizes that do not fit).
+func noSuchOffset(err error) bool {
+	return err == codec.ErrOffsetOutOfBounds || err == wal.ErrEntryNotFound //nolint:errorlint // identity is the point
+}
+
+// servedAfter lists the offsets in (from, last] that a fresh reader returns.
+func servedAfter(w wal.Wal, from, last int64) []int64 {
+	served := []int64{}
+	for o := from + 1; o <= last && o <= from+64; o++ {
+		r, err := w.NewReader(o - 1)
+		if err != nil {
+			continue
+		}
+		if e, err := r.ReadNext(); err == nil && e.Offset == o {
+			served = append(served, o)
+		}
+		_ = r.Close()
+	}
+	return served
 }
 
 func writeFiles(dir string, files map[string][]byte) error {
